@@ -54,7 +54,7 @@ let () =
     | None -> ps "none");
   reg "normalize" (fun c ->
     let l = list range c in
-    match normalize l with
+    match x_range_normalize l with
     | NDone log ->
       ps "done"; plist (fun (((o, a), b), cc) -> prange o; prange a; prange b; prange cc) log;
       plist prange (replay (heap_of l) log)
@@ -230,9 +230,7 @@ let () =
     let ms = Hashtbl.find lexmodes id and rs = Hashtbl.find rulesets id in
     let ra = re_auto rs and st = re_start rs in
     pverdict "re" (fun v -> closed st_eqb ms ra st v) (equiv_check st_eqb ms ra st fuel));
-  reg "lex" (fun c ->
-    let id = int c in let fuel = nat c in
-    let inp = list (fun c -> let r = z c in let w = z c in (r, w)) c in
+  let lex_with id fuel inp =
     let ms = Hashtbl.find lexmodes id in
     let log = ref [] in
     let push s r =
@@ -242,7 +240,17 @@ let () =
     let res = lex_input push (fun s -> s.sm_token) sm_reset sm_init fuel inp in
     plres res;
     ps "|";
-    Stdlib.List.iter (fun (r, code) -> ps (string_of_int r ^ ":" ^ string_of_int code)) (Stdlib.List.rev !log));
+    Stdlib.List.iter (fun (r, code) -> ps (string_of_int r ^ ":" ^ string_of_int code)) (Stdlib.List.rev !log) in
+  reg "lex" (fun c ->
+    let id = int c in let fuel = nat c in
+    let inp = list (fun c -> let r = z c in let w = z c in (r, w)) c in
+    lex_with id fuel inp);
+  (* lexb: the input is BYTES; the model decodes them itself (Utf8Model.decode_all) *)
+  reg "lexb" (fun c ->
+    let id = int c in
+    let bs = list z c in
+    let inp = x_utf8_decode_all bs in
+    lex_with id (nat_of_int (3 * Stdlib.List.length inp + 8)) inp);
   reg "lexre" (fun c ->
     let id = int c in let fuel = nat c in
     let inp = list (fun c -> let r = z c in let w = z c in (r, w)) c in
@@ -440,6 +448,30 @@ let () =
     match x_table_build rows with
     | Some arr -> ps "some"; plist pz arr
     | None -> ps "none")
+
+(* ---- cardinality sugar (Gen/NormalizeModel.v) and UTF-8 (Lex/Utf8Model.v) ---- *)
+let rec sterm c =
+  match int c with
+  | 0 -> STok (nat c)
+  | 1 -> SRule (nat c)
+  | 2 -> SErr
+  | 3 -> let k = (match int c with 0 -> KOpt | 1 -> KStar | 2 -> KStarF | _ -> KPlus) in
+         let x = sterm c in SCard (k, x)
+  | _ -> let e = sterm c in let sp = sterm c in let o = bool c in SList (e, sp, o)
+
+let () =
+  reg "sugar" (fun c ->
+    let start = nat c in
+    let rules = list (fun c -> list (fun c -> list sterm c) c) c in
+    let g = { sg_rules = rules; sg_start = start } in
+    pb (x_sugar_wf g);
+    let (prods, hs) = x_sugar_normalize g in
+    plist (fun p -> plist pn p) prods;
+    plist (fun (h, k) -> pn h; pn k) hs);
+  reg "utf8" (fun c ->
+    let bs = list z c in
+    plist (fun (r, w) -> pz r; pz w) (x_utf8_decode_all bs));
+  reg "utf8enc" (fun c -> let r = z c in plist pz (x_utf8_encode_rune r))
 
 let () =
   try
